@@ -4,9 +4,9 @@
 (* on every input up to the bound and (2) printed as one JSON behaviour with *)
 (* the spec's expected result of every API call, to be replayed into the     *)
 (* real code.                                                                *)
-EXTENDS Gen, ApiOps
+EXTENDS Gen, Beh
 
-CONSTANTS Alpha, MaxLen, Repl2, EmitMode, Variants
+CONSTANTS EmitMode, Variants
 
 (* ---- profile building blocks (selected by the .cfg files via <-) ------------- *)
 Chr(c) == [k |-> "chr", c |-> c]
@@ -50,6 +50,11 @@ LvCaseL1 == {Chr(233), Chr(201), Chr(53), Cls(FALSE, <<IR(224, 233)>>), Cls(TRUE
 LvCaseGr == {Chr(955), Chr(923), Chr(1073), Chr(1041), Chr(45), Cls(FALSE, <<IR(945, 955)>>)}
 LvCaseDs == {Chr(66600), Chr(66560), Chr(97), Cls(FALSE, <<IR(66600, 66602)>>), Cls(TRUE, <<IC(66560)>>)}
 
+LvAll == {Chr(97), Chr(10), Chr(40), Chr(45), Dot, BolL, EolL, Bref(1), Cls(FALSE, <<IC(97), IR(98, 99), IE("d")>>),
+          Cls(TRUE, <<IC(45), IC(93)>>), ClsSub(FALSE, <<IR(97, 122)>>, Cls(FALSE, <<IC(98)>>)), Bare(IE("w")), Bare(IE("S")),
+          Bare([t |-> "p", neg |-> FALSE, name |-> "Lu"]), Bare([t |-> "p", neg |-> TRUE, name |-> "N"]),
+          Bare([t |-> "b", neg |-> FALSE, name |-> <<71, 114, 101, 101, 107>>]),
+          Bare(IE("i")), Bare(IE("C")), Chr(36), Chr(92)}
 LvAstral == {Chr(66560), Chr(769), Chr(97), Dot, Cls(FALSE, <<IC(66560), IC(97)>>)}
 LvLoop == {Chr(97), Chr(98), BolL, EolL, Bref(1)}
 FlagsM == {NoFlags, Fl(FALSE, TRUE, FALSE)}
@@ -63,10 +68,6 @@ OptG(c) == [k |-> "rep", r |-> Grp0(Chr(c)), min |-> 0, max |-> 1, lazy |-> FALS
 GSeq(n) == [k |-> "seq", xs |-> [j \in 1..n |-> IF j = 1 THEN Grp0(Chr(97)) ELSE OptG(IF j % 2 = 0 THEN 98 ELSE 97)]]
 LvG12 == {GSeq(9), GSeq(10), GSeq(12)}                    \* (a)(b)?(a)?(b)? ... with 9, 10 and 12 groups
 ReplG12 == <<36,49,124,36,50,124,36,49,48,124,36,49,49,124,36,49,50,124,36,49,51,124,36,51>>   \* $1|$2|$10|$11|$12|$13|$3
-
-(* ---- inputs -------------------------------------------------------------------- *)
-Inputs == UNION {[1..n -> Alpha] : n \in 0..MaxLen}
-InputSeq == SetToSeq(Inputs)
 
 (* ---- theorems checked on every finished state (DESIGN 3.3) ------------------------ *)
 (* (the program record is bound once per state: TLC re-evaluates state-level definitions at every use) *)
@@ -101,36 +102,6 @@ T5On(P) == \A s \in Inputs :
 T5_Partition == Done => LET P == ProgOf IN P.nullable \/ T5On(P)
 T7_Nullable == Done => LET P == ProgOf IN
    P.nullable \/ \A s \in Inputs : \A i \in 1..Len(s)+1 : i \notin EndsAt(P.ast, P.ng, s, i, P.F)
-
-(* ---- the behaviours printed for replay -------------------------------------------------- *)
-(* Every behaviour is computed from a SOURCE <<pattern text, flag text, dialect>> by the spec's own   *)
-(* Compile: the generator only proposes sources (the rendered AST, the same text under the XSD        *)
-(* dialect, with white space inserted under flag x, ...).                                             *)
-FlagCps(F) == (IF F.i THEN <<105>> ELSE <<>>) \o (IF F.m THEN <<109>> ELSE <<>>) \o (IF F.s THEN <<115>> ELSE <<>>)
-ReplSpan == <<91, 36, 48, 93>>                                                    \* "[$0]"
-ReplGroups == <<36, 49, 124, 36, 50, 124, 36, 51, 124>>                            \* "$1|$2|$3|"
-CaseOf(P, s) ==
-  IF InputUnspec(P, s) THEN [s |-> s, u |-> TRUE]
-  ELSE IF SpanUnspec(P, s) \/ P.nullable
-  THEN [s |-> s, m |-> OpIsMatch(P, s).v, def |-> FALSE]
-  ELSE LET ms == Matches(P, s) IN
-       [s |-> s, m |-> OpIsMatch(P, s).v, def |-> TRUE,
-        r0 |-> OpReplace(P, s, ReplSpan), rg |-> OpReplace(P, s, Repl2),
-        tok |-> OpTokens(P, s), ana |-> OpAnalyze(P, s),
-        capdef |-> ~P.iterambig,
-        treedef |-> ~P.iterambig /\ \A j \in 1..Len(ms) : TreeDefinite(P, ms[j])]
-BehOfSrc(src) ==                               \* src = <<pat, flags, X>>; <<>> when the spec has no opinion
-  LET c == Compile(src[1], src[2], src[3]) IN
-  IF c.k = "uns" THEN <<>>
-  ELSE IF c.k = "err" THEN
-       IF Cardinality(c.e) # 1 THEN <<>>
-       ELSE [pat |-> src[1], flags |-> src[2], x |-> src[3], comp |-> CHOOSE e \in c.e : TRUE, cases |-> <<>>]
-  ELSE LET P == c.prog IN
-       IF LangUnspec(P) THEN <<>>
-       ELSE [pat |-> src[1], flags |-> src[2], x |-> src[3], comp |-> "ok", ng |-> P.ng, nullable |-> P.nullable,
-             strict |-> P.strict, repl2 |-> Repl2,
-             cases |-> [k \in 1..Len(InputSeq) |-> CaseOf(P, InputSeq[k])]]
-PrintSrc(src) == LET b == BehOfSrc(src) IN IF b = <<>> THEN TRUE ELSE PrintT(<<"B", ToJson(b)>>)
 
 (* white-space variants for flag x (C14): one character inserted at every position *)
 WsChars == {9, 10, 13, 32, 12, 11, 160}           \* the four that flag x removes, and three that it must not
